@@ -537,6 +537,7 @@ func Run(o RunOpts, body func()) *Exec {
 		atomicPoints: true,
 		opts:         make([]*thread, 0, 8),
 	}
+	resetKeySeq()
 	root := s.spawn("root", body)
 	s.cur = root
 	root.baton <- struct{}{}
